@@ -11,13 +11,18 @@ Metamorphic / differential oracle only (the hash formula is never re-implemented
     fields, signal <-> message) changes its full digest; over all variants of one base closure the digest must be an
     injective function of (name, id, ordered (field name, type text) list);
 (d) Python ``type_hash``, C ``HASH_<NAME>``, JavaScript ``RTMA.HASH.<NAME>``, MATLAB ``RTMA.hash.<name>`` all carry the
-    first 8 hex digits of the parser's digest, for every message, signal and reserved id;
+    first 8 hex digits of the parser's digest, for every message, signal and reserved id - also for identifiers of every
+    length in {1, 2, 31, 32, 40, 45, 46, 47, 48, 63} (a covering closure is compiled in every run; the back ends pad names
+    to fixed column widths);
 (e) ``Client.send_message`` stamps the class's ``type_hash`` into the version (``reserved``) field of the outgoing header:
     shipped core classes in process (plain and timecode header), generated classes compiled from generated closures and
     imported in a fresh interpreter; the value on the wire equals the parser's digest prefix.  Hypothesis-drawn sequences
     of 3-10 sends on ONE client (both header layouts) over shipped core classes with and without payload, hand-defined
     classes with explicit type_hash values and hand-written V1-style classes WITHOUT type_hash, send_signal interleaved:
-    every class that has a type_hash must be stamped whatever was sent before on that client.
+    every class that has a type_hash must be stamped whatever was sent before on that client.  The sequences also register
+    (pyrtma.message_def) revisions of a message - classes with the same type_id and different type_hash, also classes using the
+    id of a core message - in both orders and send instances of every revision, of classes registered nowhere and of classes
+    whose id belongs to another class: the version is the type_hash of the instance's own class and send_message never raises.
 """
 from __future__ import annotations
 
@@ -52,8 +57,8 @@ RULE = ("Hypothesis draws a well-formed base closure (1-6 files, 1-3 directories
         "message class (both header layouts) and of generated classes imported in a fresh interpreter must put type_hash into the header's "
         "version field - also in drawn sequences of 3-10 sends on one client that mix core classes, hand-defined classes with explicit "
         "hashes, hand-written classes without type_hash and send_signal calls (plus a table: each hash-less class followed by every hashed "
-        "class and back). Non-trivial = an edit pair, a relocation across files, or a send of a class with type_hash after a send of a class "
-        "without one on the same client; distinct = (edit kind, what changed, message shape) / "
+        "class and back). Non-trivial = an edit pair, a relocation across files, a send of a class with type_hash after a send of a class "
+        "without one on the same client, or a send of a class whose type_id is registered (pyrtma.message_def) to another class; distinct = (edit kind, what changed, message shape) / "
         "(relocation: new file?, directory changed?, message shape) / (output language, core imported, kind of message).")
 ASSUME = [
     "the digest of a message defined with 'fields: OTHER' identifies that reference text (it is the message's definition text); field edits are therefore applied to messages with an explicit field list only",
@@ -63,7 +68,7 @@ ASSUME = [
     "the C header deliberately omits core definitions, so core messages are compared in the Python, JavaScript and MATLAB outputs only",
     "Client internals _sock and _connected are set directly to attach the client to a socketpair (documented private poke, as in Engine D)",
     "send_signal takes a bare message id and cannot know a hash; only send_message is covered by (e); the version field of send_signal headers and of classes without type_hash is a don't-care",
-    "the hand-written classes of the send sequences are built with MessageMeta on MessageData and are not registered with pyrtma.message_def (sending does not need the registry)",
+    "the hand-written classes of the send sequences are built with MessageMeta on MessageData; they are registered with pyrtma.message_def only by explicit 'register' steps, and pyrtma.message._msg_defs is restored after every sequence",
     "a well-formed closure the parser rejects (not expected; generator is sound on the reference tree) is counted as inconclusive, acceptance is not this property",
 ]
 
@@ -123,7 +128,8 @@ def digests(p: G.Program, dirpath: Optional[str] = None):
 # metamorphic family
 
 
-ALLOW = ("alias-of-imported-struct", "alias-of-imported-struct-field", "struct-contains-message", "string-special", "prefix-names")
+ALLOW = ("alias-of-imported-struct", "alias-of-imported-struct-field", "struct-contains-message", "string-special", "prefix-names",
+         "long-names")
 
 
 @dataclass
@@ -276,7 +282,9 @@ def _edit_class(e):
 # (d) hash text in every output
 
 PY_RE = re.compile(r"class MDF_(\w+)\(MessageData.*?type_hash: ClassVar\[int\] = (0x[0-9A-Fa-f]*)", re.S)
-C_RE = re.compile(r"#define HASH_(\w+)\s+(0x[0-9a-fA-F]*)")
+# token-delimited: the macro name is the whole identifier after "#define ", followed by white space and the value; a line like
+# "#define HASH_<name>0x<hash>" defines another (empty) macro and yields no HASH_<name> entry here
+C_RE = re.compile(r"^#define[ \t]+HASH_(\w+)[ \t]+(0x[0-9a-fA-F]*)[ \t]*$", re.M)
 JS_RE = re.compile(r'RTMA\.HASH\.(\w+) = "([^"]*)";')
 ML_RE = re.compile(r'RTMA\.hash\.(\w+) = "([^"]*)";')
 
@@ -522,6 +530,11 @@ CORE_POOL = ["ACKNOWLEDGE", "EXIT", "CONNECT", "SUBSCRIBE", "MODULE_READY", "CLI
              "MESSAGE_TRAFFIC", "RTMA_LOG"]
 HAND_HASHES = {"HAND_A": 0x8A51C3D4, "HAND_B": 0x0BADF00D, "HAND_MAX": 0xFFFFFFFF, "HAND_ONE": 1, "HAND_EMPTY": 0x80000000}
 V1_NAMES = ["V1_PAYLOAD", "V1_EMPTY"]
+# revisions of one message: same type_id, different type_hash (and layout), as after regenerating a definitions module;
+# SHADOW_* use the id of a shipped core message
+REVISIONS = {"REV_A": ["REV_A1", "REV_A2"], "REV_B": ["REV_B1", "REV_B2", "REV_B3"], "CONNECT": ["CONNECT", "SHADOW_CONNECT"],
+             "ACKNOWLEDGE": ["ACKNOWLEDGE", "SHADOW_ACK"]}
+REV_NAMES = ["REV_A1", "REV_A2", "REV_B1", "REV_B2", "REV_B3", "SHADOW_CONNECT", "SHADOW_ACK"]
 SIGNAL_IDS = [0, 1234, 9999]
 _POOL = None
 
@@ -546,6 +559,15 @@ def class_pool():
             pool[n] = MessageMeta("MDF_" + n, (MessageData,), ns)
         pool["V1_PAYLOAD"] = MessageMeta("MDF_V1_PAYLOAD", (MessageData,), {"type_id": 4101, "type_name": "V1_PAYLOAD", "type_size": 8, "val": Double()})
         pool["V1_EMPTY"] = MessageMeta("MDF_V1_EMPTY", (MessageData,), {"type_id": 4102, "type_name": "V1_EMPTY", "type_size": 0})
+        revs = {"REV_A1": (4201, 0x11111111, 8), "REV_A2": (4201, 0x22222222, 8), "REV_B1": (4202, 0xB1B1B1B1, 8), "REV_B2": (4202, 0x0000B2B2, 16),
+                "REV_B3": (4202, 0xB3000000, 0), "SHADOW_CONNECT": (cd.MDF_CONNECT.type_id, 0x5AD0C011, 8), "SHADOW_ACK": (cd.MDF_ACKNOWLEDGE.type_id, 0x5AD00ACC, 0)}
+        for n, (tid, h, size) in revs.items():
+            ns = {"type_id": tid, "type_name": n, "type_hash": h, "type_size": size}
+            if size >= 8:
+                ns["val"] = Double()
+            if size == 16:
+                ns["a"], ns["b"] = Int32(), Int32()
+            pool[n] = MessageMeta("MDF_" + n, (MessageData,), ns)
         for n in V1_NAMES:
             if hasattr(pool[n], "type_hash"):
                 raise HarnessError(f"hand-written class {n} unexpectedly has a type_hash")
@@ -556,19 +578,27 @@ def class_pool():
     return _POOL
 
 
-SEND_NAMES = CORE_POOL + list(HAND_HASHES) + V1_NAMES
+SEND_NAMES = CORE_POOL + list(HAND_HASHES) + V1_NAMES + REV_NAMES
+REGISTER_NAMES = REV_NAMES + ["CONNECT", "ACKNOWLEDGE", "HAND_A", "HAND_EMPTY"]
 
 
 def run_sequence(timecode: bool, ops: list, res: Result = None):
-    """ops: [["send", class name] | ["signal", id], ...] executed on ONE client attached to a socketpair; every header is read on
-    the peer end.  version must equal type_hash for every class that has one, whatever was sent before; for a class without
-    type_hash and for send_signal the version field is a don't-care."""
+    """ops: [["send", class name] | ["signal", id] | ["register", class name], ...] executed on ONE client attached to a
+    socketpair; every header is read on the peer end.  ``register`` applies pyrtma.message_def to the class (the registry is
+    restored afterwards).  version must equal the type_hash of the instance's OWN class for every class that has one, whatever
+    was sent before and whichever class is registered for its type_id (none, itself, another revision); send_message must not
+    raise for a valid message.  For a class without type_hash and for send_signal the version field is a don't-care."""
     import ctypes
     import warnings
+    import pyrtma
+    import pyrtma.message as pm
     from pyrtma.client import Client
 
+    if not hasattr(pm, "_msg_defs"):
+        raise HarnessError("seam pyrtma.message._msg_defs is gone")
     pool = class_pool()
     trace = {"stamp": "sequence", "timecode": timecode, "ops": ops}
+    saved = dict(pm._msg_defs)
     c = Client(module_id=11, timecode=timecode)
     a, b = _attach(c)
     hs = 56 if timecode else 48
@@ -584,8 +614,18 @@ def run_sequence(timecode: bool, ops: list, res: Result = None):
                         raise HarnessError(f"unexpected header for send_signal({arg}): {f}")
                     continue
                 cls = pool[arg]
+                if kind == "register":
+                    pyrtma.message_def(cls)
+                    continue
                 obj = cls()
-                c.send_message(obj)
+                holder = pm._msg_defs.get(cls.type_id)
+                reg = "unregistered" if holder is None else ("own" if holder is cls else "other")
+                history = [f"{o[0]} {o[1]}" for o in ops[:k]]
+                try:
+                    c.send_message(obj)
+                except Exception as e:  # noqa
+                    raise Violation(f"send-message-raised/{type(e).__name__}", f"step #{k + 1} on one client: send_message({arg}) raised "
+                                    f"{type(e).__name__}: {str(e)[:120]} (class registered for its id {cls.type_id}: {reg}); before: {history}", trace)
                 f = HDR.unpack_from(_read(b, hs))
                 _read(b, f[8])
                 if f[0] != cls.type_id or f[8] != ctypes.sizeof(obj):
@@ -594,19 +634,24 @@ def run_sequence(timecode: bool, ops: list, res: Result = None):
                     seen_v1 = True
                     continue
                 if f[11] != cls.type_hash:
-                    before = [o[1] for o in ops[:k]]
-                    raise Violation("header-version-not-stamped/after-earlier-sends" if k else "header-version-not-stamped",
-                                    f"send #{k + 1} on one client (timecode header: {timecode}): send_message({arg}) put {f[11]:#010x} into the "
-                                    f"version field, type_hash is {cls.type_hash:#010x}; sent before on this client: {before}", trace)
+                    key = ("header-version-not-stamped/another-class-registered-for-the-id" if reg == "other" else
+                           "header-version-not-stamped/after-earlier-sends" if k else "header-version-not-stamped")
+                    whose = f" (that is the type_hash of {holder.__name__}, the class registered for id {cls.type_id})" if reg == "other" and getattr(holder, "type_hash", None) == f[11] else ""
+                    raise Violation(key, f"step #{k + 1} on one client (timecode header: {timecode}): send_message({arg}) put {f[11]:#010x} into the "
+                                    f"version field{whose}, its own type_hash is {cls.type_hash:#010x}; before on this client: {history}", trace)
                 if res is not None:
                     res.count("headers-checked/sequence")
+                    res.count("sequence/send-while-id-registered-to/" + reg)
                     if seen_v1:
                         res.count("sequence/hashed-send-after-hashless-send")
-                        res.shape("sequence", timecode, "core" if arg in CORE_POOL else "hand", cls.type_size == 0,
-                                  sum(1 for o in ops[:k] if o[1] in V1_NAMES) > 1, any(o[0] == "signal" for o in ops[:k]), min(k, 6))
+                    if seen_v1 or reg == "other":
+                        res.shape("sequence", timecode, "core" if arg in CORE_POOL else ("revision" if arg in REV_NAMES else "hand"), cls.type_size == 0,
+                                  sum(1 for o in ops[:k] if o[1] in V1_NAMES) > 1, any(o[0] == "signal" for o in ops[:k]), min(k, 6), reg, seen_v1)
     finally:
         a.close()
         b.close()
+        pm._msg_defs.clear()
+        pm._msg_defs.update(saved)
     if res is not None:
         res.count("send-sequences")
 
@@ -616,8 +661,17 @@ def st_sequences():
         st.tuples(st.just("send"), st.sampled_from(SEND_NAMES)),
         st.tuples(st.just("send"), st.sampled_from(V1_NAMES)),  # hash-less classes at a higher rate
         st.tuples(st.just("signal"), st.sampled_from(SIGNAL_IDS)),
+        st.tuples(st.just("register"), st.sampled_from(REGISTER_NAMES)),
+        st.tuples(st.just("send"), st.sampled_from(REV_NAMES + ["CONNECT", "ACKNOWLEDGE"])),  # classes that share an id
     )
     return st.tuples(st.booleans(), st.lists(op, min_size=3, max_size=10))
+
+
+def _collect(timecode, ops, res):
+    try:
+        run_sequence(timecode, ops, res)
+    except Violation as v:  # every root cause of the table is reported, not only the first
+        res.add_finding(v.key, v.what, v.trace)
 
 
 def sequence_table(res: Result):
@@ -627,7 +681,19 @@ def sequence_table(res: Result):
         for v1 in V1_NAMES:
             ops = [["send", hashed[0]], ["send", v1]] + [["send", n] for n in hashed] + [["signal", 1234], ["send", v1]] + [["send", n] for n in reversed(hashed)]
             res.evaluations += 1
-            run_sequence(timecode, ops, res)
+            _collect(timecode, ops, res)
+        # revisions sharing a type_id: both registration orders, sends before and after the second registration,
+        # plus a class that is registered nowhere
+        for group in REVISIONS.values():
+            for x in group:
+                for y in group:
+                    if x == y:
+                        continue
+                    for ops in ([["register", x], ["register", y], ["send", x], ["send", y], ["send", "HAND_B"], ["send", x]],
+                                [["register", x], ["send", x], ["register", y], ["send", x], ["send", y], ["send", "HAND_ONE"]],
+                                [["send", x], ["send", y], ["register", y], ["send", x]]):
+                        res.evaluations += 1
+                        _collect(timecode, ops, res)
 
 
 CHILD_E = r"""
@@ -717,7 +783,7 @@ def check_generated_stamping(p: G.Program, res: Result = None, timecode: bool = 
 # ----------------------------------------------------------------------------------------------
 
 
-def shard(idx: int, seed: int, n_meta: int, out_every: int, n_proc: int, n_stamp: int, black: bool, n_seq: int = 100):
+def shard(idx: int, seed: int, n_meta: int, out_every: int, n_proc: int, n_stamp: int, black: bool, n_seq: int = 100, quick: bool = True):
     G.quiet()
     res = Result()
     counter = {"n": 0}
@@ -740,6 +806,15 @@ def shard(idx: int, seed: int, n_meta: int, out_every: int, n_proc: int, n_stamp
         for k in range(1 if idx % 4 else 2):
             res.evaluations += 1
             check_outputs(G.build_program(rnd, import_coredefs=True, min_messages=2, allow=ALLOW), res)
+        if idx % 4 == 3 or not quick:
+            # identifiers of every length in the covering set {1, 2, 31, 32, 40, 45, 46, 47, 48, 63} (and two drawn ones) for
+            # messages, signals, structs, constants, module and host ids: the outputs pad names to fixed column widths
+            res.evaluations += 1
+            cover = G.build_name_cover_program(rnd, import_coredefs=(idx == 3))
+            check_outputs(cover, res)
+            res.count("name-cover-closures-compiled")
+            for n in G.COVER_NAME_LENGTHS:
+                res.shape("output-name-length", n, idx == 3)
         progs = [G.build_program(rnd, import_coredefs=(k % 3 == 0), min_messages=2, allow=ALLOW) for k in range(n_proc)]
         if progs:
             res.evaluations += len(progs)
@@ -766,7 +841,7 @@ def run(ctx: RunContext) -> int:
     q = ctx.quick
     # subprocess cases (two fresh interpreters per batch; a fresh interpreter per generated module) are kept to a handful in quick
     res = run_shards(shard, [(i, derive_seed(ctx.seed, i), n_meta, 6 if q else 3, (3 if i % 4 == 1 else 0) if q else ctx.scale(3, 20),
-                              (1 if i % 4 >= 2 else 0) if q else ctx.scale(2, 12), (not q) and i < 4, ctx.scale(100, 5000)) for i in range(16)])
+                              (1 if i % 4 >= 2 else 0) if q else ctx.scale(2, 12), (not q) and i < 4, ctx.scale(100, 5000), q) for i in range(16)])
     return conclude(ctx, res, RULE, ASSUME, t0)
 
 
